@@ -64,7 +64,7 @@ RULE = ("shift cases: arange-labelled tensors of rank 1-6, lengths from {1,2,3,4
 PENDING_FINDINGS: list[str] = []
 # n-D corollaries (lifting of the 1-D theorems through Tensor.alongAxis) are obligations of this check too
 EXTRA_LEAN_MODULES = ["DirectVerif.Lemmas.TensorLiftC01", "DirectVerif.Lemmas.C01Dft", "DirectVerif.Lemmas.C01Linear",
-                      "DirectVerif.Lemmas.C01DftND"]
+                      "DirectVerif.Lemmas.C01DftND", "DirectVerif.Lemmas.C01Validate", "DirectVerif.Lemmas.C01Sum"]
 
 LENS = [1, 2, 3, 4, 5, 6, 7, 9, 12]
 
@@ -285,6 +285,44 @@ def _as_view(rng, x):
     return v, "offset-slice"
 
 
+def _reimpl_functions():
+    """numpy re-implementations of the centred transform under direct/ -> (name, fn, inverse, shape/dims maker)"""
+    from direct.data import fake
+    from direct.data.datasets import SheppLoganDataset
+
+    def last2(rng, rep):
+        rank = rng.randint(2, 4)
+        cshape = _shape(rng, rank, 200, need_odd_even=False)
+        cshape[-1 - (rep % 2)] = [3, 5, 7, 9][rep % 4] if rep % 3 else cshape[-1 - (rep % 2)]
+        return cshape, [rank - 2, rank - 1]
+
+    def axes12(rng, rep):
+        cshape = _shape(rng, 3, 200, need_odd_even=False)
+        cshape[1 + (rep % 2)] = [3, 5, 7, 9][rep % 4] if rep % 3 else cshape[1 + (rep % 2)]
+        return cshape, [1, 2]
+
+    return [("fake.fft", fake.fft, 0, last2), ("fake.ifft", fake.ifft, 1, last2),
+            ("SheppLoganDataset.fft", SheppLoganDataset.fft, 0, axes12)]
+
+
+def _fftn_probe_shapes(ctx):
+    """(shape, dims) whose every unit impulse is sent through torch.fft.fftn / ifftn (quick: a fixed handful incl. odd,
+    even, 1, non-square, a triple, unsorted dims; thorough: every 2-D shape up to 6x6 embedded at two positions, every
+    3-axis shape up to 3x3x4)"""
+    if not ctx.thorough:
+        return [([3, 4], [0, 1]), ([2, 5, 3], [1, 2]), ([4, 2, 3], [2, 0]), ([1, 6], [0, 1]), ([2, 3, 2], [0, 1, 2]), ([5, 1, 2], [0, 2])]
+    out = []
+    for n in range(1, 7):
+        for m in range(1, 7):
+            out.append(([n, m], [0, 1]))
+            out.append(([2, n, m], [2, 1] if (n + m) % 2 else [1, 2]))
+    for a in range(1, 4):
+        for b in range(1, 4):
+            for c in range(1, 5):
+                out.append(([a, b, c], [0, 1, 2] if (a + b + c) % 2 else [2, 0, 1]))
+    return out
+
+
 def _fft_cases(ctx: Ctx):
     """-> dicts {line, run (-> ('err', name) | ('ok', complex ndarray)), key, nontrivial, bucket}"""
     import direct.data.transforms as T
@@ -390,6 +428,33 @@ def _fft_cases(ctx: Ctx):
                "run": lambda x=x, d=tuple(d), c=c, n=n, fn=fn: fn(x, dim=d, centered=bool(c), normalized=bool(n),
                                                                   complex_input=False).numpy().astype(np.complex128),
                "nontrivial": any(cshape[a] >= 2 for a in d), "bucket": "fft/real-float32-pow2"}
+    # re-implementations of the centred transform with numpy outside transforms.py (fake.fft / fake.ifft /
+    # SheppLoganDataset.fft): the same protocol line as fft2 / ifft2 with centered=normalized=1 on a complex array
+    for name, fn, inv, mk in _reimpl_functions():
+        for rep in range(ctx.budget(6, 40)):
+            cshape, dims = mk(rng, rep)
+            pos = [rng.randrange(sz) for sz in cshape]
+            x = np.zeros(cshape, dtype=np.complex128)
+            x[tuple(pos)] = 1.0
+            odd = any(cshape[a] % 2 == 1 and cshape[a] >= 3 for a in dims)
+            yield {"line": line("fft", cshape, pos, dims, [1, 1, 0, inv], [3]),
+                   "run": lambda x=x, fn=fn: np.asarray(fn(x)).astype(np.complex128),
+                   "nontrivial": any(cshape[a] >= 2 for a in dims), "bucket": f"fft/reimpl/{name}/" + ("odd" if odd else "even")}
+    # the ONE assumption about the external transform, probed systematically and exactly: torch.fft.fftn / ifftn over a
+    # tuple of axes of every unit impulse of small tensors equals the per-axis DFT monomial (all norms incl. "forward")
+    for cshape, dims in _fftn_probe_shapes(ctx):
+        for pos in itertools.product(*[range(n) for n in cshape]):
+            if any(p for a, p in enumerate(pos) if a not in dims):
+                continue                      # untransformed axes: one representative
+            for inv in (0, 1):
+                for nmc, nm in ((0, "ortho"), (1, "backward"), (2, "forward")):
+                    x = torch.zeros(cshape, dtype=torch.complex64)
+                    x[tuple(pos)] = 1.0
+                    f = torch.fft.ifftn if inv else torch.fft.fftn
+                    yield {"line": line("fftn", cshape, list(pos), list(dims), [inv, nmc]),
+                           "run": lambda x=x, f=f, d=tuple(dims), nm=nm: f(x, dim=d, norm=nm).numpy().astype(np.complex128),
+                           "nontrivial": any(cshape[a] >= 2 for a in dims),
+                           "bucket": f"assumption/fftn-basis/{len(dims)}ax/" + nm}
     # malformed stream: the code must reject these, and the model must name the same exception
     for _ in range(ctx.budget(60, 600)):
         rank = rng.randint(2, 4)
@@ -398,30 +463,46 @@ def _fft_cases(ctx: Ctx):
         pos = [0] * rank
         c, n, ci, inv = (rng.randint(0, 1) for _ in range(4))
         kind = rng.choice(["negdim", "negdim", "float64", "float16", "complex128", "real-nonpow2", "last-not-2", "dupdim",
-                           "dim-range", "int64"])
+                           "dim-range", "int64", "empty-axis", "real-mixed-pow2", "combo", "combo", "combo"])
+        kinds = [kind]
+        if kind == "combo":      # two faults at once: the order of the checks decides which exception wins
+            kinds = rng.sample(["negdim", "float64", "float16", "last-not-2", "dupdim", "dim-range", "int64", "empty-axis"], 2)
+            if "last-not-2" in kinds or "int64" in kinds:
+                ci = 1
+        kind = "+".join(sorted(kinds)) if len(kinds) > 1 else kind
         dt = torch.float32 if ci else torch.complex64
-        shape = cshape + [2] if ci else cshape
-        if kind == "negdim":
-            d[rng.randrange(2)] = -rng.randint(1, rank)
-        elif kind == "float64":
-            dt = torch.float64 if ci else torch.float64
-        elif kind == "float16":
-            dt = torch.float16
-        elif kind == "complex128":
-            ci, dt, shape = 0, torch.complex128, cshape
-        elif kind == "real-nonpow2":
-            ci, dt = 0, torch.float32
-            cshape[d[0]] = rng.choice([3, 5, 6, 7])
-            shape = cshape
-        elif kind == "last-not-2":
-            ci, dt = 1, torch.float32
-            shape = cshape + [rng.choice([1, 3])]
-        elif kind == "dupdim":
-            d[1] = d[0]
-        elif kind == "dim-range":
-            d[rng.randrange(2)] = len(shape) - (1 if ci else 0) + rng.randint(0, 1)
-        elif kind == "int64":
-            ci, dt, shape = 1, torch.int64, cshape + [2]
+        last = [2] if ci else []
+        for k1 in kinds:
+            if k1 == "negdim":
+                d[rng.randrange(2)] = -rng.randint(1, rank)
+            elif k1 == "float64":
+                dt = torch.float64
+            elif k1 == "float16":
+                dt = torch.float16
+            elif k1 == "complex128":
+                ci, dt, last = 0, torch.complex128, []
+            elif k1 == "real-nonpow2":
+                ci, dt, last = 0, torch.float32, []
+                cshape[d[0]] = rng.choice([3, 5, 6, 7])
+            elif k1 == "real-mixed-pow2":      # one transformed length a power of two, the other not
+                ci, dt, last = 0, torch.float32, []
+                cshape[d[0]] = rng.choice([2, 4, 8])
+                cshape[d[1]] = rng.choice([3, 5, 6])
+            elif k1 == "last-not-2":
+                ci, dt = 1, (dt if dt in (torch.float32, torch.float64, torch.float16) else torch.float32)
+                last = [rng.choice([1, 3])]
+            elif k1 == "dupdim":
+                d[1] = d[0]
+            elif k1 == "dim-range":
+                d[rng.randrange(2)] = rank + rng.randint(0, 1)
+            elif k1 == "int64":
+                ci, dt = 1, torch.int64
+                last = last or [2]
+            elif k1 == "empty-axis":
+                dd = [a for a in d if 0 <= a < rank]
+                if dd:
+                    cshape[rng.choice(dd)] = 0
+        shape = cshape + last
         x = torch.zeros(shape, dtype=dt)
         fn = T.ifft2 if inv else T.fft2
 
@@ -522,13 +603,22 @@ def _fft_oracle_case(T, shape_c, dims, c, n, ci, seed):
     bad = []
     odd = any(shape_c[a] % 2 == 1 and shape_c[a] >= 3 for a in dims)
     tag = ("centered" if c else "uncentered") + ("-odd" if odd else "-even")
+    x0 = x.clone()
     try:
         fwd = _call(T, "fft2", x, dims, c, n, ci)
         bwd = _call(T, "ifft2", x, dims, c, n, ci)
+        fwd0 = fwd.clone()
         back1 = _call(T, "ifft2", fwd, dims, c, n, ci)
         back2 = _call(T, "fft2", bwd, dims, c, n, ci)
+        again = _call(T, "fft2", x, dims, c, n, ci)
     except Exception as e:  # noqa: BLE001
         return [("fft-raises-on-valid-input", f"fft2/ifft2 raise {err_name(e)} on a valid float32/complex64 input", repr(e))]
+    rl = lambda t: torch.view_as_real(t) if t.is_complex() else t  # noqa: E731
+    if not torch.equal(rl(x), rl(x0)) or not torch.equal(rl(fwd), rl(fwd0)):
+        bad.append((f"history/input-modified/{tag}", "fft2 / ifft2 modify their input tensor in place", "input differs after the call"))
+    if again.shape != fwd.shape or not torch.equal(rl(again), rl(fwd)):
+        bad.append((f"history/repeated-call-differs/{tag}", "fft2 called twice on the same input (with ifft2 calls in between) returns "
+                    "different tensors", float((rl(again) - rl(fwd)).abs().max()) if again.shape == fwd.shape else "shape"))
     for nm, back in (("ifft2(fft2(x))", back1), ("fft2(ifft2(x))", back2)):
         if back.shape != x.shape or not np.allclose(_as_np(back, ci), z, atol=1e-4):
             bad.append((f"inverse-pair/{tag}", f"{nm} != x", float(np.max(np.abs(_as_np(back, ci) - z))) if back.shape == x.shape else "shape"))
@@ -549,6 +639,114 @@ def _fft_oracle_case(T, shape_c, dims, c, n, ci, seed):
             if not np.allclose(_as_np(y, ci), tb, atol=1e-4 * scale):
                 bad.append((f"textbook/{nm}/{tag}", f"{nm} differs from sum_j x_j w^((k-c)(j-c))",
                             float(np.max(np.abs(_as_np(y, ci) - tb)))))
+    return bad
+
+
+def _reimpl_case(T, name, cshape, dims, seed):
+    """numpy re-implementation `name` on random integer-valued complex data -> failing laws"""
+    fns = {n: (f, inv) for n, f, inv, _ in _reimpl_functions()}
+    fn, inv = fns[name]
+    r = __import__("random").Random(seed)
+    xr = _rand_complex(r, cshape)
+    z = torch.view_as_complex(xr).numpy().astype(np.complex128)
+    odd = any(cshape[a] % 2 == 1 and cshape[a] >= 3 for a in dims)
+    tag = "odd" if odd else "even"
+    slug = {"fake.fft": "fake-fft", "fake.ifft": "fake-ifft", "SheppLoganDataset.fft": "shepp-logan-fft"}[name]
+    bad = []
+    try:
+        z0 = z.copy()
+        got = np.asarray(fn(z))
+        ours = _as_np(_call(T, "ifft2" if inv else "fft2", xr, dims, 1, 1, 1), 1)
+    except Exception as e:  # noqa: BLE001
+        return [(f"reimplementation/{slug}-raises", f"{name} raises {err_name(e)}", repr(e)[:200])]
+    scale = max(1.0, float(np.max(np.abs(ours))))
+    if got.shape != ours.shape or not np.allclose(got, ours, atol=1e-4 * scale):
+        bad.append((f"reimplementation/{slug}-{tag}", f"{name} differs from transforms.{'ifft2' if inv else 'fft2'} (centred, normalised) "
+                    "on the same axes", float(np.max(np.abs(got - ours))) if got.shape == ours.shape else "shape"))
+    if _prod(cshape) <= 400:
+        tb = _textbook(z, tuple(dims), 1, 1, bool(inv))
+        if got.shape != tb.shape or not np.allclose(got, tb, atol=1e-6 * scale):
+            bad.append((f"reimplementation/{slug}-textbook-{tag}", f"{name} differs from sum_j x_j w^((k-c)(j-c)), c = n // 2",
+                        float(np.max(np.abs(got - tb))) if got.shape == tb.shape else "shape"))
+    if not np.array_equal(z, z0):
+        bad.append((f"reimplementation/{slug}-modifies-input", f"{name} modifies its input", ""))
+    if name.startswith("fake."):
+        other = fns["fake.ifft" if name == "fake.fft" else "fake.fft"][0]
+        back = np.asarray(other(got))
+        if back.shape != z.shape or not np.allclose(back, z, atol=1e-8 * max(1.0, float(np.max(np.abs(z))))):
+            bad.append((f"reimplementation/fake-inverse-pair-{tag}", "fake.ifft(fake.fft(x)) != x (or the converse)",
+                        float(np.max(np.abs(back - z))) if back.shape == z.shape else "shape"))
+    return bad
+
+
+def _site_case(T, dims, overrides, seed):
+    """call fft2 / ifft2 the way a call site does -> '' or what went wrong"""
+    flags = {"centered": True, "normalized": True, "complex_input": True}
+    for k, v in overrides:
+        if k < 3:
+            flags[("centered", "normalized", "complex_input")[k]] = bool(v)
+        else:
+            return "keyword the operators do not have"
+    r = __import__("random").Random(seed)
+    rank = max([a for a in dims if a >= 0] + [1]) + 2
+    cshape = _shape(r, rank, 400)
+    xr = _rand_complex(r, cshape)
+    x = xr if flags["complex_input"] else torch.view_as_complex(xr)
+    z = torch.view_as_complex(xr).numpy().astype(np.complex128)
+    for nm in ("fft2", "ifft2"):
+        for dform in (tuple(dims), list(dims)):
+            try:
+                y = getattr(T, nm)(x, dim=dform, **flags)
+            except Exception as e:  # noqa: BLE001
+                return f"{nm} raises {err_name(e)}: {e}"[:160]
+            ref = _np_ref(z, tuple(dims), flags["centered"], flags["normalized"], nm == "ifft2")
+            if not np.allclose(_as_np(y, flags["complex_input"]), ref, atol=1e-4 * max(1.0, float(np.max(np.abs(ref))))):
+                return f"{nm} differs from the reference transform over axes {tuple(dims)}"
+    return ""
+
+
+def _history_case(T, seed):
+    """a history of calls through shared operator / dim objects -> failing laws"""
+    from direct.utils import str_to_class
+
+    r = __import__("random").Random(seed)
+    pairs = _operator_strings()
+    fs, bs = r.choice(pairs)
+    ops = {s_: str_to_class("direct.data.transforms", s_) for s_ in (fs, bs)}
+    dim_objs = [list(r.choice(_spatial_dim_literals())) for _ in range(2)] + [tuple(r.choice(_spatial_dim_literals()))]
+    frozen = [list(d) for d in dim_objs]
+    bad = []
+    log = []
+    for step in range(r.randint(6, 10)):
+        s_ = r.choice([fs, bs])
+        _, c, n, ci = _parse_flags(s_)
+        dobj = r.choice(dim_objs)
+        rank = max(dobj) + 1 + r.choice([0, 1])
+        cshape = _shape(r, rank, 300)
+        xr = _rand_complex(r, cshape)
+        x = xr if ci else torch.view_as_complex(xr)
+        x0 = x.clone()
+        try:
+            got = ops[s_](x, dim=dobj)
+            kind = r.choice(["fftshift", "ifftshift", "roll", "none"])
+            if kind in ("fftshift", "ifftshift"):                       # interleave the shift helpers on the same dim object
+                getattr(T, kind)(xr, dim=dobj)
+            elif kind == "roll":
+                T.roll(xr, [r.randint(-3, 3) for _ in dobj], dobj)
+            fresh = str_to_class("direct.data.transforms", s_)(x0.clone(), dim=tuple(dobj))
+        except Exception as e:  # noqa: BLE001
+            return [("history/raises", f"step {step}: {s_} with the shared dim object {dobj!r} raises {err_name(e)}", repr(e)[:200])]
+        rl = lambda t: torch.view_as_real(t) if t.is_complex() else t  # noqa: E731
+        log.append((s_, list(dobj), cshape))
+        if got.shape != fresh.shape or not torch.equal(rl(got), rl(fresh)):
+            bad.append(("history/result-depends-on-earlier-calls", f"step {step} of {log}: the shared operator object returns a tensor "
+                        "that differs from a fresh call on the same input", ""))
+        if not torch.equal(rl(x), rl(x0)):
+            bad.append(("history/input-modified", f"step {step} of {log}: the input tensor was modified", ""))
+        if [list(d) for d in dim_objs] != frozen:
+            bad.append(("history/dim-object-modified", f"step {step} of {log}: the caller's `dim` object was modified: {dim_objs}", ""))
+        if bad:
+            break
     return bad
 
 
@@ -836,6 +1034,53 @@ def oracle(ctx: Ctx, deep: bool = False):
         ctx.notes.append("str_to_class observation: 'fft2()' (empty argument list) raises AttributeError (looked up as attribute 'fft2()')")
     except Exception:  # noqa: BLE001
         pass
+    # (2e) re-implementations of the centred transform outside transforms.py (numpy): equal to fft2 / ifft2 of transforms.py with
+    #      centered = normalized = True on the same axes, equal to the textbook sum, and fake.ifft undoes fake.fft — odd and even
+    for name, fn, inv, mk in _reimpl_functions():
+        for rep in range(ctx.budget(8, 60) * (2 if deep else 1)):
+            cshape, dims = mk(rng, rep)
+            seed = rng.randrange(2 ** 31)
+            odd = any(cshape[a] % 2 == 1 and cshape[a] >= 3 for a in dims)
+            ctx.count(("reimpl", name, tuple(cshape), seed), any(cshape[a] >= 2 for a in dims),
+                      bucket=f"oracle/reimpl/{name}/" + ("odd" if odd else "even"))
+            for key, what, obs in _reimpl_case(T, name, cshape, dims, seed):
+                yield Violation(key, what, {"op": "reimpl", "name": name, "shape": cshape, "dims": dims, "seed": seed, "law": key,
+                                            "observed": obs})
+    # (2f) every call site of the operators under direct/ (AST scan, the same one the translated `call_sites` table comes from):
+    #      the `dim` forms it can pass and the flags it overrides are accepted by the real fft2 / ifft2 and give the reference
+    #      transform
+    try:
+        from translate.recipes.c01 import scan_call_sites
+        _, sites = scan_call_sites(core.REPO)
+    except Exception as e:  # noqa: BLE001
+        sites = []
+        ctx.notes.append(f"call-site scan failed: {err_name(e)}: {e}"[:200])
+    seen_forms = set()
+    for st in sites:
+        for d in st["dims"]:
+            form = (tuple(d), tuple(st["overrides"]))
+            if form in seen_forms:
+                continue
+            seen_forms.add(form)
+            ctx.count(("site", form), True, bucket="oracle/callsite-forms")
+            bad = _site_case(T, d, st["overrides"], rng.randrange(2 ** 31))
+            if bad:
+                yield Violation("callsite/dim-form-rejected", f"{st['path']}:{st['line']} `{st['text'][:80]}` passes dim={tuple(d)} "
+                                f"{dict(st['overrides'])}: {bad}",
+                                {"op": "site", "path": st["path"], "line": st["line"], "dims": list(d),
+                                 "overrides": [list(o) for o in st["overrides"]], "what": bad})
+    ctx.hist["oracle/callsites-scanned"] = len(sites)
+    if any(not st["understood"] for st in sites):
+        ctx.notes.append("call sites whose `dim` expression the scanner does not understand: " +
+                         ", ".join(f"{st['path']}:{st['line']}" for st in sites if not st["understood"])[:300])
+    # (2g) call histories: one operator object (functools.partial from str_to_class) and one `dim` object reused across tensors of
+    #      different shapes / dtypes, interleaved with other operators — every result equals the result of a fresh call, the
+    #      `dim` object and the inputs are left untouched
+    for _ in range(ctx.budget(6, 60)):
+        seed = rng.randrange(2 ** 31)
+        ctx.count(("history", seed), True, bucket="oracle/histories")
+        for key, what, obs in _history_case(T, seed):
+            yield Violation(key, what, {"op": "history", "seed": seed, "law": key, "observed": obs})
     # (3) rejected inputs
     x = torch.zeros(2, 3, 4, 2)
     for nm in ("fft2", "ifft2"):
@@ -901,6 +1146,12 @@ def replay(rep: dict) -> bool:
         if op == "fft-laws":
             bad = _fft_oracle_case(T, rep["shape"], rep["dims"], rep["centered"], rep["normalized"], rep["complex_input"], rep["seed"])
             return any(k == rep["law"] for k, _, _ in bad)
+        if op == "reimpl":
+            return any(k == rep["law"] for k, _, _ in _reimpl_case(T, rep["name"], rep["shape"], rep["dims"], rep["seed"]))
+        if op == "site":
+            return bool(_site_case(T, rep["dims"], [tuple(o) for o in rep["overrides"]], 0))
+        if op == "history":
+            return any(k == rep["law"] for k, _, _ in _history_case(T, rep["seed"]))
         if op == "negdim":
             try:
                 getattr(T, rep["fn"])(torch.zeros(2, 3, 4, 2), dim=tuple(rep["dims"]))
